@@ -14,9 +14,12 @@ if ! git -C "$wt" apply --check "$out/patch.diff" 2>/dev/null; then
   git -C /repo worktree remove --force "$wt"; base=e019c9f^; git -C /repo worktree add -q --detach "$wt" "$base" || exit 2
 fi
 export PYTHONPATH="$wt" PYTHONDONTWRITEBYTECODE=1
-( cd "$wt" && timeout 600 /venv/bin/python "$out/demo.py" >"$out/demo_unmodified.log" 2>&1 ); d0=$?
+# demos may hard-code the worktree they were written in: run a copy with that path replaced by the scratch worktree
+mkdir -p "$wt/seed"
+sed -E "s#/tmp/seed2?/C[0-9]+#$wt#g" "$out/demo.py" > "$wt/seed/demo_run.py"
+( cd "$wt" && timeout 600 /venv/bin/python "$wt/seed/demo_run.py" >"$out/demo_unmodified.log" 2>&1 ); d0=$?
 if ! git -C "$wt" apply "$out/patch.diff" 2>"$out/apply.log"; then echo "$name: PATCH DOES NOT APPLY"; git -C /repo worktree remove --force "$wt"; exit 2; fi
-( cd "$wt" && timeout 600 /venv/bin/python "$out/demo.py" >"$out/demo_modified.log" 2>&1 ); d1=$?
+( cd "$wt" && timeout 600 /venv/bin/python "$wt/seed/demo_run.py" >"$out/demo_modified.log" 2>&1 ); d1=$?
 tests="skipped"
 if [ -f "$out/verify.json" ]; then tests=$(/venv/bin/python -c "import json,sys; print(json.load(open(sys.argv[1])).get('tests_with_change','skipped'))" "$out/verify.json"); fi
 if [ "${SKIP_TESTS:-0}" != "1" ]; then
